@@ -1,4 +1,4 @@
-EXTRACT_DEPS = ['PnInst.vo']
+EXTRACT_DEPS = ['PnRun.vo', 'PnInst.vo']
 
 
 def _trivial(inp, out):
